@@ -305,7 +305,7 @@ impl Property for C02 {
     const ID: &'static str = "C02";
     type Case = Case;
     fn rule() -> String {
-        "cases = (documents from a node grammar decorated with anchors and aliases, layout, target). Exhaustive: every tree with <= 5 (thorough 6) nodes over {scalar, sequence, mapping} x every placement of <= 2 anchors (2 names, so re-definition is included) and <= 3 aliases, in block and flow layout; random trees up to ~40 nodes decorated by a script (aliases drawn from the names bound at that point, 10% deliberately unbound), all scalar styles, aliases as keys / values / items / merge values, 1-3 document streams. Oracle: metamorphic - value(doc) == value(alias-free, anchor-free expansion computed on the AST by the harness) for untyped, serde_json::Value and shape-following typed targets (String / Option<String> / any scalars); a document with an unbound alias (never defined, defined later, defined in another document) must be rejected. Every rendered text is first self-checked against the raw parser's event stream. Non-trivial: an alias that resolves to a container, an anchor nested inside an anchored node, or a re-defined name; distinct = distinct (docs, layout, target).".into()
+        "cases = (documents from a node grammar decorated with anchors and aliases, layout, target). Exhaustive: every tree with <= 5 (thorough 6) nodes over {scalar, sequence, mapping} x every placement of <= 2 anchors (2 names, so re-definition is included) and <= 3 aliases, in block and flow layout; random trees up to ~40 nodes decorated by a script (aliases drawn from the names bound at that point, 10% deliberately unbound), all scalar styles, aliases as keys / values / items / merge values, 1-3 document streams. Oracle: metamorphic - value(doc) == value(alias-free, anchor-free expansion computed on the AST by the harness) for untyped, serde_json::Value and shape-following typed targets (String / Option<String> / any scalars); a document with an unbound alias (never defined, defined later, defined in another document) must be rejected. Every rendered text is first self-checked against the raw parser's event stream. Non-trivial: an alias that resolves to a container, an anchor nested inside an anchored node, or a re-defined name; distinct = distinct (docs, layout, target). Sub-check anchored-null-likes: 8 null-like / empty scalars (an omitted node that carries only an anchor, `~`, `null`, `\"\"`, ...) anchored and aliased in value, item and key position, next to the other null / empty key.".into()
     }
     fn assumptions() -> Vec<String> {
         vec![
